@@ -1059,6 +1059,9 @@ lkcd_attr_cleanup(struct attr_dict *dict)
 {
 	struct lkcd_priv *lkcdp = dict->shared->fmtdata;
 
+	if (!lkcdp)
+		return;
+
 	attr_remove_override(dgattr(dict, GKI_page_size),
 			     &lkcdp->page_size_override);
 	attr_remove_override(dgattr(dict, GKI_max_pfn),
